@@ -90,6 +90,56 @@ fn multi_history(w: usize, reqs: &[Version], evs: &[MEv], bs: u8) -> Result<Opti
     Ok(None)
 }
 
+/// W servers with per-client statistics sharing ONE statistics queue of capacity 2W (as the workers
+/// of one process do). Rounds of (request to worker w, step w, statistics hand-off of w); the
+/// reporter drains the queue after round `drain_after` only (a reporter that is late, or slower than
+/// a short status interval). No hand-off may fail or block, every request is answered.
+fn shared_queue_history(w: usize, workers_per_round: &[usize], drain_after: Option<usize>) -> Result<Option<(String, String)>, String> {
+    use roughenough::stats::StatsQueue;
+    let cfg = SrvCfg { batch_size: 2, client_stats: true, ..Default::default() };
+    let lt_pk = crypto::public_key(&cfg.seed);
+    let queue = std::sync::Arc::new(StatsQueue::new(w * 2));
+    let mut srvs: Vec<Srv> = vec![];
+    for _ in 0..w {
+        srvs.push(Srv::new_with_queue(&cfg, queue.clone())?);
+    }
+    for (round, &t) in workers_per_round.iter().enumerate() {
+        let v = if round % 2 == 0 { Version::Classic } else { Version::Ietf13 };
+        let c = Client::new();
+        let r = rtref::responder::std_request(v, &nonce(0x18_5000 + round as u64, v.nonce_len()));
+        c.send(srvs[t].addr, &r);
+        if let Err(p) = srvs[t].settle() {
+            return Ok(Some(("panic".into(), format!("worker {} in round {}: {}", t, round, p))));
+        }
+        let got = c.drain();
+        if got.len() != 1 || authentic(&got[0].0, &r, v, Some(&lt_pk), SERVER_VIEW).is_err() {
+            return Ok(Some(("missing-reply".into(), format!("round {}: request to worker {} got {} datagrams / not authentic", round, t, got.len()))));
+        }
+        if let Err(p) = srvs[t].handoff_stats() {
+            return Ok(Some(("panic".into(), format!("statistics hand-off of worker {} in round {} (queue holds {} of {}): {}", t, round, queue.len(), w * 2, p))));
+        }
+        if queue.len() > w * 2 {
+            return Ok(Some(("queue-exceeds-capacity".into(), format!("{} entries", queue.len()))));
+        }
+        if drain_after == Some(round) {
+            while queue.pop().is_some() {}
+        }
+    }
+    // all workers still serve
+    for (t, s) in srvs.iter_mut().enumerate() {
+        let c = Client::new();
+        let r = rtref::responder::std_request(Version::Classic, &nonce(0x18_6000 + t as u64, 64));
+        c.send(s.addr, &r);
+        if let Err(p) = s.settle() {
+            return Ok(Some(("panic".into(), format!("worker {} after the rounds: {}", t, p))));
+        }
+        if c.drain().len() != 1 {
+            return Ok(Some(("missing-reply".into(), format!("worker {} does not answer after the rounds", t))));
+        }
+    }
+    Ok(None)
+}
+
 // ---- part 2 helpers -----------------------------------------------------------------------------
 
 /// environment program realising a distribution (request k -> worker dist[k]) on a slot
@@ -162,6 +212,32 @@ pub fn run(ctx: &Ctx) -> Result<(), String> {
         });
         if let Some(e) = failed.lock().unwrap().take() {
             return Err(e);
+        }
+    }
+
+    // part 1c: per-client statistics, W workers sharing one statistics queue of capacity 2W: every
+    // assignment of R rounds (request, step, hand-off) to the workers x every position of the single
+    // reporter pass (or none). With R > 2W the queue overflows unless drained in time.
+    {
+        let plans: Vec<(usize, usize)> = ctx.tier.pick(vec![(2, 6)], vec![(2, 8), (3, 7)]); // (W, R)
+        for (w, r) in plans {
+            let n = w.pow(r as u32) * (r + 1);
+            par_for(n, 8, |code, _| {
+                let drain = code % (r + 1);
+                let mut a = code / (r + 1);
+                let ws: Vec<usize> = (0..r).map(|_| { let x = a % w; a /= w; x }).collect();
+                let drain_after = if drain == r { None } else { Some(drain) };
+                hist_n.fetch_add(1, Relaxed);
+                transitions.fetch_add(3 * r as u64 + w as u64, Relaxed);
+                match shared_queue_history(w, &ws, drain_after) {
+                    Err(e) => *failed.lock().unwrap() = Some(e),
+                    Ok(None) => {}
+                    Ok(Some((clause, msg))) => ctx.violation(&clause, "multi-worker", "in-process-shared-stats-queue", json!({"kind":"shared-queue","workers":w,"worker_per_round":ws,"reporter_drains_after_round":drain_after,"message":msg})),
+                }
+            });
+            if let Some(e) = failed.lock().unwrap().take() {
+                return Err(e);
+            }
         }
     }
 
@@ -269,7 +345,7 @@ pub fn run(ctx: &Ctx) -> Result<(), String> {
     ctx.cov("caps_hit", json!(sched.caps_hit));
     ctx.cov("exhaustive", json!(sched.caps_hit.is_empty()));
     ctx.cov("bound", json!({"in_process": ctx.tier.pick("W=2,K=3,depth 6", "W=2,K=4,depth 8; W=3,K=3,depth 6"), "controlled": ctx.tier.pick("N=2,K=2, preemption bound 2, distributions up to worker symmetry", "N in {2,3}, K in {2,3}, every distribution up to worker symmetry, preemption bound 3/2/2/1, 90 s wall cap per scenario")}));
-    ctx.cov("rule", json!("(1) in-process: W real Server objects from one seed; all event sequences of the depth bound over {deliver(next request -> worker w), step(w)} (the harness plays the kernel's distribution), completed to quiescence: exactly one reply per request, from the worker it was delivered to, authentic for that request under the single long-term key, per-responder delegated keys stable and distinct; plus bursts larger than one event-loop call handles (e.g. 20 requests per worker at batch_size 1) spread over the workers and queued before the first step. (2) the real server process under the controlled scheduler: K requests whose source ports are chosen through the learned port->worker map to realise each distribution; schedules over the hook points (loop_top, polled, collected, sent, flag_check of each worker, environment sends) explored with iterative preemption bounding; same oracle plus no thread exit/panic and every worker back at loop_top. (3) sampled: free-running binary with 64 concurrent closed-loop reference clients (quick: 15 rounds, num_workers {4,16}; thorough: 60 rounds, {1,2,4,8,16}); a failure observed there is a real failing execution, its absence is not a proof."));
+    ctx.cov("rule", json!("(1) in-process: W real Server objects from one seed; all event sequences of the depth bound over {deliver(next request -> worker w), step(w)} (the harness plays the kernel's distribution), completed to quiescence: exactly one reply per request, from the worker it was delivered to, authentic for that request under the single long-term key, per-responder delegated keys stable and distinct; plus bursts larger than one event-loop call handles (e.g. 20 requests per worker at batch_size 1) spread over the workers and queued before the first step; and, with per-client statistics on, W workers sharing ONE statistics queue of capacity 2W: every assignment of R rounds (request, step, statistics hand-off) to the workers x every position of a single reporter pass (or none) — no hand-off fails or blocks, every request answered, every worker serves afterwards. (2) the real server process under the controlled scheduler: K requests whose source ports are chosen through the learned port->worker map to realise each distribution; schedules over the hook points (loop_top, polled, collected, sent, flag_check of each worker, environment sends) explored with iterative preemption bounding; same oracle plus no thread exit/panic and every worker back at loop_top. (3) sampled: free-running binary with 64 concurrent closed-loop reference clients (quick: 15 rounds, num_workers {4,16}; thorough: 60 rounds, {1,2,4,8,16}); a failure observed there is a real failing execution, its absence is not a proof."));
     ctx.sample(json!({"kind":"multi","workers":2,"events":["Deliver(0)","Deliver(1)","Step(1)","Deliver(0)","Step(0)"]}));
     ctx.sample(json!({"kind":"schedule","scenario":"load-n2-k2-dist[0, 1]","schedule":["env:send(c3,C)","worker-0@loop_top(0)","env:send(c0,I)","worker-1@loop_top(0)","worker-0@polled(1)"]}));
     ctx.assume("interleavings are explored at hook granularity; all cross-thread communication of the server goes through hooked operations or kernel sockets (static audit: no static mut / unsafe / shared Mutex besides the config lock, the KEEP_RUNNING flag and the stats queue)");
@@ -292,6 +368,14 @@ pub fn replay_case(c: &Value) -> Result<Option<String>, String> {
                 Some(if s.starts_with("Deliver") { MEv::Deliver(n) } else { MEv::Step(n) })
             }).collect();
             let r = crate::util::on_named_thread("worker-0", || multi_history(w, &reqs, &evs, bs))?;
+            Ok(r.map(|(a, b)| format!("{} {}", a, b)))
+        }
+        Some("shared-queue") => {
+            crate::inproc::init();
+            let w = c["workers"].as_u64().ok_or("workers")? as usize;
+            let ws: Vec<usize> = c["worker_per_round"].as_array().ok_or("worker_per_round")?.iter().map(|x| x.as_u64().unwrap_or(0) as usize).collect();
+            let d = c["reporter_drains_after_round"].as_u64().map(|x| x as usize);
+            let r = crate::util::on_named_thread("worker-0", move || shared_queue_history(w, &ws, d))?;
             Ok(r.map(|(a, b)| format!("{} {}", a, b)))
         }
         _ => Err("replay of this case kind: re-run the check".into()),
